@@ -8,7 +8,7 @@
 //@ outside: that execute_air_impl routes every failing step to this function with raw_prev_data (farewell_if_fail! call sites need a full run); the success / catchable half of C02 (needs complete runs)
 //@ harness: name=c02_failure_outcome_returns_prev_data props=C02 cap=1800 cost=200 sym="data: 4 any bytes; error code: any i64; 3 limit flags: any" bound="data length 4"
 //@ harness: name=c02_failure_outcome_empty_prev_data props=C02 cap=1800 cost=200 sym="error code: any i64; 3 limit flags: any" bound="empty previous data (first run of a particle on a peer)"
-//@ harness: name=c19_dedup_next_peers props=C19 tier=thorough core=0 cap=2400 cost=600 sym="three peer names chosen symbolically from {p,q}" bound="list of 3; HashSet with fixed SipHash keys"
+//@ harness: name=c19_dedup_next_peers props=C19 tier=thorough core=0 cap=1200 cost=600 sym="three peer names chosen symbolically from {p,q}" bound="list of 3; HashSet with fixed SipHash keys"
 
 use super::*;
 include!("_air_stubs.rs");
